@@ -17,13 +17,18 @@ FILTERS = [('*', lambda m: True), ('wl_surface', None), ('! .commit', None)]
 MATCHERS = [(0, 1, 0, 0), (0, 0, 1, 0), (0, 2, 0, 0), (0, 4, 0, 0), (0, 0, 2, 0), (0, 0, 3, 0), (2, 0, 4, 0), (1, 1, 1, 0),
             (0, 0, 4, 2), (0, 0, 4, 7), (0, 5, 0, 0), (0, 17, 0, 0), (0, 0, 4, 6), (0, 0, 4, 9), (0, 3, 0, 0), (0, 10, 1, 0),
             (0, 0, 7, 0), (0, 0, 4, 13), (0, 16, 0, 0), (5, 0, 1, 0)]
-HISTORIES = {'empty': 0, 'one': 1, 'twelve': None, 'universe': len(ms.UNIVERSE), 'universe_live_commands': len(ms.UNIVERSE)}
+HISTORIES = {'empty': 0, 'one': 1, 'twelve': None, 'universe': len(ms.UNIVERSE), 'universe_live_commands': len(ms.UNIVERSE),
+             'interleaved_equal_times': None}
 
 
 def history_msgs(name):
     if name == 'twelve':
         u = ms.UNIVERSE
         return u[:8] + u[45:49]      # 8 lines of connection 1 (incl. delete_id) + 4 of connection 2
+    if name == 'interleaved_equal_times':
+        u = ms.UNIVERSE
+        a, b = u[:8], u[45:53]
+        return [x for pair in zip(a, b) for x in pair]      # the two connections alternate line by line, one timestamp
     if name == 'universe_live_commands':
         u = list(ms.UNIVERSE)
         # messages on objects the log never showed being created, on both connections
@@ -56,7 +61,7 @@ def evaluate(case):
     V = []
     try:
         msgs = history_msgs(case['history'])
-        lines, views = ms.build_universe(sut.REPO, msgs)
+        lines, views = ms.build_universe(sut.REPO, msgs, equal_times=case['history'] == 'interleaved_equal_times')
         fi = case['filter']
         s = sut.Session(filt=None if fi == 0 else FILTERS[fi][0], stop='wl_keyboard')
         shown_all = []
@@ -192,7 +197,7 @@ def eval_long_history(case):
 def gen_cases(tier):
     matchers = ['absent', '*', '!', 'bad'] + [list(m) for m in (MATCHERS[:9] if tier == 'quick' else MATCHERS)]
     caps = ['absent', 0, 1, 2, 'k-1', 'k', 'k+1', 99] + ([3, 7] if tier != 'quick' else [])
-    hists = ['empty', 'one', 'twelve', 'universe', 'universe_live_commands']
+    hists = ['empty', 'one', 'twelve', 'universe', 'universe_live_commands', 'interleaved_equal_times']
     for h in hists:
         for fi in range(len(FILTERS)):
             for sel in ('all', 'A', 'B'):
